@@ -753,6 +753,8 @@ func checkC01(c *Ctx) {
 	// the instantiated column templates: value counts handed to the page writer, values decoded per chunk
 	runFT(c, "FT", map[string]bool{"count": true, "read": true, "delta": true})
 	runTD(c, "TD", map[string]bool{"write": true, "add": true, "reader": true})
+	// record-at-a-time consumption of values and levels in Scan, index bookkeeping of repeated groups
+	runTVDriver(c, "TV-driver")
 	laMaxLevels(c, "LA-maxlevels")
 	laTrim(c, "LA-trim")
 	laPages(c, "LA-pages")
@@ -958,6 +960,7 @@ func checkC15(c *Ctx) {
 		r.bad("LA-types", "optional <-> pointer", u.Pos(fld.Pos()), "structs.field does not emit a pointer exactly for OPTIONAL schema elements")
 	}
 	// the footer schema parquetgen -parquet reads: group child counts are per group
+	laFooterMeta(c, "LA-footer", map[string]bool{"totals": true})
 	laStructs(c, "LA-structs")
 	laCells(c, "LA-cells")
 	r.floor("LA-types/table-entries", 6, "BOOLEAN, INT32, INT64, FLOAT, DOUBLE, BYTE_ARRAY")
